@@ -588,6 +588,24 @@ func (c *Ctx) bin(op Op, a, b *Term) *Term {
 			if b.K == m {
 				return a
 			}
+			// contiguous mask: x & 0..01..10..0 = concat(0, x[hi:lo], 0) — bit-slicing exposes the
+			// structure of field-packing code to the extract rules
+			if a.Op != OVar {
+				lo := bits.TrailingZeros64(b.K)
+				run := b.K >> uint(lo)
+				if run&(run+1) == 0 {
+					hi := lo + bits.Len64(run) - 1
+					mid := c.Extract(a, hi, lo)
+					res := mid
+					if lo > 0 {
+						res = c.Concat(res, c.Const(lo, 0))
+					}
+					if hi < w-1 {
+						res = c.Concat(c.Const(w-1-hi, 0), res)
+					}
+					return res
+				}
+			}
 			if a.Op == OBvAnd && a.A[1].IsConst() {
 				return c.bin(OBvAnd, a.A[0], c.Const(w, a.A[1].K&b.K))
 			}
